@@ -5,7 +5,8 @@ Property theorems only; helper lemmas live in `GluonModel/Lemmas/Search.lean`.  
 `GluonModel/Model/Search.lean` (`search` = `Mailbox.Search`, `build` = `buildSearchOp`, `handleSearch`), the
 RFC 3501 reference semantics is `GluonModel/Spec/SearchSpec.lean` (`sat`, `expected`).  The model is tied
 to the real server by the wire-level oracle `c15search` (harness/o_search.go) whose verdicts come from
-`GluonModel/Driver/DSearch.lean`.
+`GluonModel/Driver/DSearch.lean`.  Which header `MsgData.hdr` a stored literal has is `GluonModel/Model/SearchHeader.lean`
+(`hdrOfLiteral`: C13's entry parser + `unfold` = `mergeMultiline`; correspondence `c15-unfold`, judge-c15-hdr).
 
 Every theorem is for every key tree (any depth), every snapshot and every message data.  `u` is the UID
 flag of the command (`false`: SEARCH, `true`: UID SEARCH), `dec` the charset decoder of the command.
@@ -30,6 +31,7 @@ carries the corresponding named hypothesis (`Search.LeafOK`, one clause per kind
 -/
 import GluonModel.Lemmas.Search
 import GluonModel.Lemmas.SearchSched
+import GluonModel.Lemmas.SearchHeader
 
 namespace Gluon.C15
 
@@ -422,6 +424,72 @@ theorem ci_substring_meaning (hay key : Bytes) :
       ∃ pre mid post, hay = pre ++ mid ++ post ∧ mid.map foldByte = key.map foldByte :=
   containsCI_iff hay key
 
+/-! ## The header-string keys look at the UNFOLDED field value
+
+`MsgData.hdr` is `rfc822.NewHeader` + `getMerged`: `Search.hdrOfLiteral` (Model/SearchHeader.lean: C13's entry parser, then
+`Search.unfold` = `mergeMultiline`, tied to the real `Header.Entries` by the correspondence `c15-unfold`; the oracle
+checks the header it claims for every message against `hdrOfLiteral` of the stored literal, judge-c15-hdr). -/
+
+/-- **A header-string key tests the unfolded value of the first field of its name, and nothing else of the header** —
+    for a message whose header block has the fields `fs` (name, RAW value with its folds): BCC CC FROM SUBJECT TO HEADER
+    answer whether `unfold` of that raw value contains the (lower-cased) key.  Neither the raw bytes of the field nor
+    any other field enter. -/
+theorem header_key_on_unfolded (field k : Bytes) (x : SData) (fs : List (Bytes × Bytes))
+    (hx : x.d.hdr = some (unfoldFields fs)) :
+    (Op.header field k).eval x =
+      .ok (Search.contains (lower (((fs.find? (fun f => lower f.1 == lower field)).map (fun f => unfold f.2)).getD [])) k) := by
+  have e : ((fun e : Bytes × Bytes => lower e.1 == lower field) ∘ fun f : Bytes × Bytes => (f.1, unfold f.2)) =
+      (fun f => lower f.1 == lower field) := rfl
+  simp only [Op.eval, hx, Option.getD_some, hdrGet, unfoldFields, List.find?_map, e]
+  cases fs.find? (fun f => lower f.1 == lower field) <;> rfl
+
+/-- … so two mailboxes whose messages differ only in HOW their header fields are folded (same names, same unfolded
+    values) get the same answer to every SEARCH, whatever the key tree. -/
+theorem search_on_unfolded (u : Bool) (s : Snap) (base : MsgId → MsgData) (raw raw' : MsgId → List (Bytes × Bytes))
+    (dec : Bytes → Option Bytes) (keys : List Key) (h : ∀ id, unfoldFields (raw id) = unfoldFields (raw' id)) :
+    search u s (fun id => { base id with hdr := some (unfoldFields (raw id)) }) dec keys =
+    search u s (fun id => { base id with hdr := some (unfoldFields (raw' id)) }) dec keys := by
+  have e : (fun id => ({ base id with hdr := some (unfoldFields (raw id)) } : MsgData)) =
+      (fun id => { base id with hdr := some (unfoldFields (raw' id)) }) := funext fun id => by rw [h id]
+  rw [e]
+
+/-- **A line break with the white space around it reads as ONE space, wherever it stands** — a value written as the
+    lines `a`, `l₁`, `l₂`, … (each starting and ending with a printable ASCII character, anything in between), with any
+    blanks / tabs before each CRLF and after it, unfolds to `a l₁ l₂ …` joined by single spaces. -/
+theorem unfold_folded (a : Bytes) (rest : List (Bytes × Bytes × Bytes)) (ha : Clean a)
+    (hr : ∀ x ∈ rest, isWSPs x.1 ∧ isWSPs x.2.1 ∧ Clean x.2.2) :
+    unfold (foldedRaw a rest) = foldedVal a rest := by
+  have := unfoldGo_folded [] a rest (fun _ h => by cases h) ha hr
+  simpa [unfold] using this
+
+/-- **Fold placement is irrelevant** — the folded value reads exactly as the same text on one line. -/
+theorem fold_placement_irrelevant (a : Bytes) (rest : List (Bytes × Bytes × Bytes)) (ha : Clean a)
+    (hr : ∀ x ∈ rest, isWSPs x.1 ∧ isWSPs x.2.1 ∧ Clean x.2.2) :
+    unfold (foldedRaw a rest) = unfold (foldedRaw (foldedVal a rest) []) := by
+  rw [unfold_folded a rest ha hr,
+    unfold_folded _ [] (clean_foldedVal a rest ha (fun x hx => (hr x hx).2.2)) (fun _ h => by cases h)]
+  simp [foldedVal]
+
+/-- `Subject: a b` CRLF SP `c d` CRLF, then the empty line -/
+def wFoldedLit : Bytes :=
+  [83, 117, 98, 106, 101, 99, 116, 58, 32, 97, 32, 98, 13, 10, 32, 99, 32, 100, 13, 10, 13, 10]
+def bSubject : Bytes := [83, 117, 98, 106, 101, 99, 116]
+/-- `b c`: spans the fold -/
+def bSpan : Bytes := [98, 32, 99]
+
+/-- **A string that spans a fold is found, although it does not occur in the raw header block** — the message
+    `Subject: a b` CRLF SP `c d` has the Subject `a b c d`; `HEADER Subject "b c"` (= `SUBJECT "b c"`, `envelope_keys_are_header_keys`) selects it and its NOT does not,
+    while the bytes `b c` occur nowhere in the literal (there the two letters are separated by CR LF SP).  So "no search
+    string occurs in the header block" does NOT imply "no header-string key matches": a pre-filter on the raw block
+    would drop this message from `SUBJECT "b c"` and add it to `NOT SUBJECT "b c"`.  Oracle scenario `folds`. -/
+theorem folded_subject_witness :
+    hdrOfLiteral wFoldedLit = some [(bSubject, [97, 32, 98, 32, 99, 32, 100])] ∧
+    (let d : MsgId → MsgData := fun _ => MsgData.ofLiteral { wData with text := wFoldedLit }
+     search false wSnap d some [.leaf (.header bSubject bSpan)] = .ok [1] ∧
+     search false wSnap d some [.not (.leaf (.header bSubject bSpan))] = .ok [] ∧
+     expected false wSnap d some [.leaf (.header bSubject bSpan)] = [1]) ∧
+    Search.contains (lower wFoldedLit) (lower bSpan) = false := by decide
+
 /-! ## CHARSET -/
 
 /-- **A charset golang.org/x/text knows by name only (UTF-7, UTF-32, GB2312, ISO-2022-KR, …) is refused, not
@@ -482,6 +550,18 @@ example : search false exSnap exData some exKeys = .ok [2, 3] := by decide
 example : search true exSnap exData some exKeys = .ok [7, 9] := by decide
 example : expected false exSnap exData some exKeys = [2, 3] := by decide
 example : search false exSnap exData some [.not (.list exKeys)] = .ok [1] := by decide
+
+/-- the hypotheses of `unfold_folded` / `fold_placement_irrelevant`: `a b` SP CRLF TAB `c d` CRLF reads `a b c d` -/
+example : Clean [97, 32, 98] := ⟨⟨97, [32, 98], rfl, by decide⟩, ⟨98, [97, 32], rfl, by decide⟩, by decide⟩
+example : foldedRaw [97, 32, 98] [([32], [9], [99, 32, 100])] = [97, 32, 98, 32, 13, 10, 9, 99, 32, 100, 13, 10] := by decide
+example : unfold (foldedRaw [97, 32, 98] [([32], [9], [99, 32, 100])]) = [97, 32, 98, 32, 99, 32, 100] := by decide
+/-- outside `Clean`: a continuation line of white space only leaves two spaces (`a` CRLF SP CRLF SP `b` CRLF reads `a  b`),
+    U+00A0 before the break is trimmed like a blank -/
+example : unfold [97, 13, 10, 32, 13, 10, 32, 98, 13, 10] = [97, 32, 32, 98] := by decide
+example : unfold [97, 0xC2, 0xA0, 13, 10, 32, 98, 13, 10] = [97, 32, 98] := by decide
+/-- `header_key_on_unfolded` on a header with a folded Subject and a second field -/
+example : (Op.header bSubject bSpan).eval ⟨1, Snap.mkMsg 1 1 [], { wData with hdr := some (unfoldFields
+    [(bReceived, bFirst), (bSubject, [97, 32, 98, 13, 10, 32, 99, 32, 100, 13, 10])]) }⟩ = .ok true := by decide
 
 /-- `Covers` is satisfiable by a schedule that is not the sequential order -/
 example : Covers [2, 0, 1] exSnap.length := by intro j; simp [List.mem_cons, exSnap]; omega
